@@ -52,6 +52,17 @@ def obligations(tier):
                   bounds='reference = every second 1950..2090 (symbolic day number, h, m, s); N = 1..8 (thorough 1..60; concretised by the code\'s float()) hours (thorough: minutes, seconds; last / previous)',
                   encodes=['recognizers_date_time.date_time.base_datetimeperiod:BaseDateTimePeriodParser.parse_duration'],
                   stubs=['duration extractor / parser return one duration of N units; no cardinal numbers in the prefix']))
+    zt = [{'fields': f, 'lb1': a_, 'lb2': b_} for f in (1, 2, 3) for a_, b_ in ((-1, -1), (12, -1), (18, 0), (0, 12))]
+    if tier == 'thorough':
+        zt += [{'fields': f, 'lb1': a_, 'lb2': b_} for f in (2, 3) for a_, b_ in ((11, -1), (18, -1), (12, 18), (0, 0), (-1, 12))]
+    obs.append(Ob('O10.10-chinese-time-period', 'sx', 'harness.C10zh:h_zh_time_period', slices=zt, timeout=t,
+                  descr='Chinese time period (ChineseTimePeriodParser.parse_time_period / build_timex / build_span) on two symbolic clock times as the Chinese time parser reports them (hour, minute, second, low bound of the day-part word): '
+                        'start / end are those clock times (an unmarked end after a marked start stays in the start\'s half of the day), the TIMEX clock times are the resolved ones, the span PT..H..M..S is end - start, the end lies after the start (next day if needed)',
+                  bounds='both times any h:m:s (fields per slice), low-bound pattern per slice; resolved hour <= 24', encodes=['recognizers_date_time.date_time.chinese.timeperiod_parser:ChineseTimePeriodParser.parse_time_period',
+                           'recognizers_date_time.date_time.chinese.timeperiod_parser:ChineseTimePeriodParser.build_span', 'recognizers_date_time.date_time.chinese.timeperiod_parser:ChineseTimePeriodParser.build_timex'],
+                  stubs=['the inner Chinese time parser is a stub returning TimeResult objects with the symbolic fields (its own behaviour is O7.6)']))
+    obs.append(Ob('O10.10-witness-zh-span', 'fn', 'harness.witness:api_witness', slices=[{'w': 'F65'}, {'w': 'F66'}], timeout=t, finding='F65', descr='API witnesses of the repaired F65 / F66 (Chinese time period: seconds dropped from the span; end earlier in the same hour): a reappearance is a violation'))
+    obs.append(Ob('O10.10-witness-short-left', 'fn', 'harness.witness:api_witness', slices=[{'w': 'F64'}], timeout=t, finding='F64', descr='API witness of F64 (十一到十二点 read as 1 to 12)'))
     from props import _corpus
     import json as _json
     slices, counts, _ = _corpus.slices(tier, 'arith', tag='range3', quick_cap=12)
